@@ -57,8 +57,11 @@ TEXT = {
             'Every cached return value is compared with an uncached recomputation and with a twin built from the same data; objects recreated at the address of destroyed ones and cache floods beyond maxsize are driven explicitly; liveness after the last reference is observed with weakref+gc. K6 survivors are tolerated only when held solely through Collective.jumps.'),
 }
 
+RETAINED = {'C01', 'C02', 'C03', 'C05', 'C06', 'C07', 'C08', 'C09', 'C10', 'C11', 'C12', 'C13', 'C14', 'C17', 'C19'}
+RETAIN_T = '; result-retention monitor (what a call returned is re-read after the following calls, and scribbled on when dropped)'
+RETAIN_X = ' Results handed out by earlier calls are kept and compared again after the calls of the following case (process-wide buffers, aliasing); the same data is presented in varying memory layouts, storage modes, atom orders and species / label spellings.'
 CLAIMED = {
-    pid: dict(level='exploration', technique=t, text=x, design=f'DESIGN.md §2 {pid}')
+    pid: dict(level='exploration', technique=t + (RETAIN_T if pid in RETAINED else ''), text=x + (RETAIN_X if pid in RETAINED else ''), design=f'DESIGN.md §2 {pid}')
     for pid, (t, x) in TEXT.items()
 }
 CLAIMED['C16'] = dict(
@@ -93,7 +96,7 @@ def main():
         )
     man = {
         'version': 1,
-        'setup_cmd': f'{PY} -c "import sys; sys.path.insert(0, \'/verif\'); import gv.core, gv.geom, gv.gen, gv.models, gv.monitor; print(\'gv ok\')"',
+        'setup_cmd': f'{PY} -c "import sys; sys.path.insert(0, \'/verif\'); import gv.core, gv.geom, gv.gen, gv.models, gv.monitor, gv.retain; print(\'gv ok\')"',
         'hooks': {
             'guard': 'GEMDAT_REPOS_GEMDAT_VERIF',
             'enable': 'no source hooks exist: /verif/gv/monitor.py wraps the real gemdat callables at run time in a fresh interpreter that imports /repo/src (the guard variable is exported for completeness; no repository code reads it)',
